@@ -532,6 +532,30 @@ def run_request(job):
     return rec
 
 
+def job_f19(seed):
+    """Open finding F19: the same turnout request (default outlier models ON) on a fresh baseline frame and on the frame
+    object an earlier margin run was handed.  Returns what differs."""
+    from elexmodel.client import ModelClient
+
+    pre, cur = synth.make_election(n=120, states=STATES, seed=seed, frac_reporting=0.75)
+
+    def call(p, est, method, feats, mp):
+        return ModelClient().get_estimates(cur.copy(), synth.EID, "G", [est], [0.9], 100, "precinct", raw_config=synth.config("G", STATES),
+                                           preprocessed_data=p, pi_method=method, features=feats, aggregates=["postal_code", "unit"], save_output=[], model_parameters=mp)
+
+    a = pre.copy()
+    r1 = call(a, "turnout", "nonparametric", ["x1"], {})
+    b = pre.copy()
+    call(b, "margin", "bootstrap", ["baseline_normalized_margin"], {"B": 3})
+    left = sorted(set(b.columns) - set(pre.columns))
+    r2 = call(b, "turnout", "nonparametric", ["x1"], {})
+    t1, t2 = result_digest(r1)[0], result_digest(r2)[0]
+    u1, u2 = r1["unit_data"].set_index("geographic_unit_fips"), r2["unit_data"].set_index("geographic_unit_fips")
+    return {"seed": seed, "differs": t1 != t2, "columns_left_in_the_callers_frame": left,
+            "unit_categories_differing": int((u1.unit_category != u2.unit_category.reindex(u1.index)).sum()),
+            "state_predictions": [r1["state_data"].pred_turnout.tolist(), r2["state_data"].pred_turnout.tolist()]}
+
+
 def diff_requests(job):
     """Diagnosis for a rejected C13 trace: rerun two requests and list the cells whose rows differ."""
     a, b = run_request(job["a"]), run_request(job["b"])
